@@ -110,10 +110,10 @@ def search(ctx):
 
 def run(ctx) -> int:
     proof = common.proof_stage(ctx.pid)
-    L = 6 if ctx.thorough else 5
+    L = 7 if ctx.thorough else 6
     sweep(ctx, L, 2)
     ctx.exhaustive.append(f"every reducible/non-reducible layout up to length {L} x 3 strategies x {len(CFGS)} option settings (random verdicts)")
-    loaders_stream(ctx, 8 if ctx.thorough else 2)
+    loaders_stream(ctx, 12 if ctx.thorough else 4)
     return common.decide(ctx, proof, RULE, search=search)
 
 
